@@ -35,6 +35,8 @@ import (
 	"io"
 	"net"
 	"net/http"
+	"net/http/httptrace"
+	"net/textproto"
 	"os"
 	"path/filepath"
 	"runtime"
@@ -110,6 +112,58 @@ func vfC02Dial(w *vfWorld, to *net.UDPAddr) (*vfRaw, error) {
 	r := &vfRaw{W: w, Addr: addr, Tag: addr.String(), ep: ep, tr: tr, Conn: conn, H3: h3}
 	w.onClose(r.Close)
 	return r, nil
+}
+
+// vfC02Resp is everything a client can see of one HTTP/3 exchange: the informational (1xx)
+// responses in order, the final status, header, body and trailer.
+type vfC02Info struct {
+	Code   int         `json:"code"`
+	Header http.Header `json:"header"`
+}
+
+type vfC02Resp struct {
+	Status  int
+	Header  http.Header
+	Body    []byte
+	Err     error
+	Info    []vfC02Info
+	Trailer http.Header
+}
+
+// vfC02Do is vfRaw.Do plus observation of 1xx responses (httptrace) and trailers.
+func vfC02Do(x *vfRaw, method, authority, path string, hdr http.Header, body []byte) vfC02Resp {
+	var rd io.Reader
+	if body != nil {
+		rd = bytes.NewReader(body)
+	}
+	req, err := http.NewRequest(method, "https://"+authority+path, rd)
+	if err != nil {
+		return vfC02Resp{Err: err}
+	}
+	for k, v := range hdr {
+		req.Header[k] = v
+	}
+	var mu sync.Mutex
+	var info []vfC02Info
+	trace := &httptrace.ClientTrace{Got1xxResponse: func(code int, h textproto.MIMEHeader) error {
+		mu.Lock()
+		info = append(info, vfC02Info{Code: code, Header: http.Header(h).Clone()})
+		mu.Unlock()
+		return nil
+	}}
+	ctx, cancel := context.WithTimeout(context.Background(), 60*time.Second)
+	defer cancel()
+	resp, err := x.H3.RoundTrip(req.WithContext(httptrace.WithClientTrace(ctx, trace)))
+	if err != nil {
+		mu.Lock()
+		defer mu.Unlock()
+		return vfC02Resp{Err: err, Info: info}
+	}
+	b, err := io.ReadAll(resp.Body)
+	_ = resp.Body.Close()
+	mu.Lock()
+	defer mu.Unlock()
+	return vfC02Resp{Status: resp.StatusCode, Header: resp.Header, Body: b, Err: err, Info: info, Trailer: resp.Trailer}
 }
 
 // ---------------------------------------------------------------- the masquerade handler H
@@ -219,6 +273,95 @@ func (h *vfC02Handler) ServeHTTP(w http.ResponseWriter, r *http.Request) {
 			}
 			p = p[c:]
 		}
+	case mode == "hint103": // 103 Early Hints, then the real answer
+		hd.Set("Link", "</style-"+id+".css>; rel=preload; as=style")
+		w.WriteHeader(http.StatusEarlyHints)
+		hd.Set("Content-Type", "text/vf-hinted")
+		w.WriteHeader(404)
+		_, _ = io.WriteString(w, "hinted 404\n"+echo)
+	case mode == "proc102":
+		w.WriteHeader(http.StatusProcessing)
+		hd.Set("Content-Type", "text/vf-processed")
+		w.WriteHeader(200)
+		_, _ = io.WriteString(w, echo)
+	case mode == "multi1xx":
+		hd.Add("Link", "</a-"+id+".js>; rel=preload; as=script")
+		w.WriteHeader(http.StatusEarlyHints)
+		hd.Add("Link", "</b.css>; rel=preload; as=style")
+		w.WriteHeader(http.StatusEarlyHints)
+		w.WriteHeader(http.StatusProcessing)
+		hd.Del("Link")
+		hd.Set("Retry-After", "120")
+		w.WriteHeader(503)
+		_, _ = io.WriteString(w, "busy\n")
+	case mode == "hint-implicit": // 103, then a body without an explicit final status
+		hd.Set("Link", "</i.css>; rel=preload")
+		w.WriteHeader(http.StatusEarlyHints)
+		_, _ = io.WriteString(w, "<html><body>implicit after hint "+id+"</body></html>")
+	case mode == "twice": // only the first final status counts
+		hd.Set("Content-Type", "text/vf-twice")
+		w.WriteHeader(201)
+		w.WriteHeader(500)
+		_, _ = io.WriteString(w, "created\n"+echo)
+	case mode == "flushfirst": // Flush before any WriteHeader: implicit 200, the later 404 is void
+		if f, ok := w.(http.Flusher); ok {
+			f.Flush()
+		}
+		hd.Set("X-Vf-Late", "void")
+		w.WriteHeader(404)
+		_, _ = io.WriteString(w, "flushed first\n"+echo)
+	case mode == "implicit": // body without WriteHeader and without Content-Type (sniffed)
+		_, _ = io.WriteString(w, "<!DOCTYPE html><html><body>"+id+"</body></html>")
+	case mode == "setdel":
+		hd.Set("X-Vf-Gone", "1")
+		hd.Add("X-Vf-Multi", "a")
+		hd.Add("X-Vf-Multi", "b")
+		hd.Del("X-Vf-Gone")
+		hd.Del("Cache-Control")
+		hd["Date"] = nil // documented way to suppress Date
+		w.WriteHeader(200)
+		hd.Set("X-Vf-Late", "void")
+		_, _ = io.WriteString(w, echo)
+	case mode == "trailer":
+		hd.Set("Trailer", "X-Vf-Trailer")
+		hd.Set("Content-Type", "text/vf-trailered")
+		w.WriteHeader(200)
+		_, _ = io.WriteString(w, echo)
+		hd.Set("X-Vf-Trailer", "t-"+id)
+		hd.Set(http.TrailerPrefix+"X-Vf-Trailer2", "p-"+id)
+	case mode == "ifaces": // a web application may depend on what its ResponseWriter can do
+		var have []string
+		if _, ok := w.(http.Flusher); ok {
+			have = append(have, "Flusher")
+		}
+		if _, ok := w.(interface{ FlushError() error }); ok {
+			have = append(have, "FlushError")
+		}
+		if _, ok := w.(http.Hijacker); ok {
+			have = append(have, "Hijacker")
+		}
+		if _, ok := w.(http.Pusher); ok {
+			have = append(have, "Pusher")
+		}
+		if _, ok := w.(io.ReaderFrom); ok {
+			have = append(have, "ReaderFrom")
+		}
+		if _, ok := w.(http3.HTTPStreamer); ok {
+			have = append(have, "HTTPStreamer")
+		}
+		if _, ok := w.(http3.Settingser); ok {
+			have = append(have, "Settingser")
+		}
+		if _, ok := w.(interface{ SetWriteDeadline(time.Time) error }); ok {
+			have = append(have, "SetWriteDeadline")
+		}
+		if _, ok := w.(interface{ Unwrap() http.ResponseWriter }); ok {
+			have = append(have, "Unwrap")
+		}
+		hd.Set("X-Vf-Ifaces", strings.Join(have, ","))
+		hd.Set("X-Vf-Rc-Deadline", fmt.Sprint(http.NewResponseController(w).SetWriteDeadline(time.Now().Add(time.Hour))))
+		w.WriteHeader(200)
+		_, _ = io.WriteString(w, echo)
 	case mode == "slow":
 		// a slow web application: the body comes in two parts 12 s apart (virtual time in a bubble)
 		hd.Set("Content-Type", "text/vf-slow")
@@ -256,6 +399,7 @@ var vfC02Modes = []string{
 	"echo", "echo", "st:201", "st:204", "st:301", "st:304", "st:400", "st:401", "st:403", "st:404", "st:405", "st:418",
 	"st:500", "st:503", "empty", "nowrite", "big:1", "big:1200", "bigcl:16384", "big:70000", "flush", "reqbody", "redirect", "notfound",
 	"slow", // bubble parts only (12 s between the two halves of the body)
+	"hint103", "proc102", "multi1xx", "hint-implicit", "twice", "flushfirst", "implicit", "setdel", "trailer", "ifaces",
 }
 
 // ---------------------------------------------------------------- workload
@@ -479,7 +623,23 @@ func vfC02HeaderNames(h http.Header) []string {
 	return n
 }
 
-func vfC02RespSummary(r vfResp) map[string]any {
+func vfC02HeaderString(h http.Header) string {
+	var parts []string
+	for _, n := range vfC02HeaderNames(h) {
+		parts = append(parts, fmt.Sprintf("%s=%q", n, h[n]))
+	}
+	return "[" + strings.Join(parts, " ") + "]"
+}
+
+func vfC02InfoString(in []vfC02Info) string {
+	var parts []string
+	for _, i := range in {
+		parts = append(parts, fmt.Sprintf("%d%s", i.Code, vfC02HeaderString(i.Header)))
+	}
+	return "[" + strings.Join(parts, ", ") + "]"
+}
+
+func vfC02RespSummary(r vfC02Resp) map[string]any {
 	m := map[string]any{"status": r.Status, "header": r.Header, "body_len": len(r.Body), "body_sha256": fmt.Sprintf("%x", sha256.Sum256(r.Body))}
 	if len(r.Body) <= 400 {
 		m["body"] = string(r.Body)
@@ -488,6 +648,12 @@ func vfC02RespSummary(r vfResp) map[string]any {
 	}
 	if r.Err != nil {
 		m["err"] = r.Err.Error()
+	}
+	if len(r.Info) > 0 {
+		m["informational"] = r.Info
+	}
+	if len(r.Trailer) > 0 {
+		m["trailer"] = r.Trailer
 	}
 	return m
 }
@@ -656,10 +822,10 @@ func vfC02DoRequest(k *vfKit, w *vfWorld, c vfC02Case, st *vfC02ConnState, q *vf
 	acceptedBefore := st.accepted
 	l0 := w.Log.Len()
 	// fan out over channels (channel operations are durably blocking in a bubble)
-	hyC, refC := make(chan vfResp, 1), make(chan vfResp, 1)
+	hyC, refC := make(chan vfC02Resp, 1), make(chan vfC02Resp, 1)
 	refHdr := hdr.Clone()
-	go func() { hyC <- st.hy.Do(q.Method, q.Host, q.Path, hdr, body) }()
-	go func() { refC <- st.ref.Do(q.Method, q.Host, q.Path, refHdr, body) }()
+	go func() { hyC <- vfC02Do(st.hy, q.Method, q.Host, q.Path, hdr, body) }()
+	go func() { refC <- vfC02Do(st.ref, q.Method, q.Host, q.Path, refHdr, body) }()
 	hyR, refR := <-hyC, <-refC
 	var authEvs []vfEvent
 	ncall, nok, nrej := 0, 0, 0
@@ -731,7 +897,7 @@ func vfC02DoRequest(k *vfKit, w *vfWorld, c vfC02Case, st *vfC02ConnState, q *vf
 
 // vfC02CompareResp is the oracle for one request that is not an accepted authentication
 // request: the Hysteria server's response must be what the plain web server gave.
-func vfC02CompareResp(k *vfKit, desc string, wit func(map[string]any) map[string]any, q *vfC02Req, hyR, refR vfResp, probed bool) {
+func vfC02CompareResp(k *vfKit, desc string, wit func(map[string]any) map[string]any, q *vfC02Req, hyR, refR vfC02Resp, probed bool) {
 	if hyR.Err != nil {
 		if probed {
 			// the reaction of either server to an unauthenticated 0x401 stream is not demanded
@@ -767,6 +933,18 @@ func vfC02CompareResp(k *vfKit, desc string, wit func(map[string]any) map[string
 			}
 			k.Violation("server:masq-header-value-differs", wit(map[string]any{"header": name}), "%s: header %s = %q, plain web server sends %q", desc, name, a, b)
 		}
+	}
+	if a, b := vfC02InfoString(hyR.Info), vfC02InfoString(refR.Info); a != b {
+		k.Violation("server:masq-informational-differs", wit(nil), "%s: informational (1xx) responses before the final one: %s; plain web server sends: %s", desc, a, b)
+	}
+	if len(refR.Info) > 0 {
+		k.Count("compared_with_1xx", 1)
+	}
+	if a, b := vfC02HeaderString(hyR.Trailer), vfC02HeaderString(refR.Trailer); a != b {
+		k.Violation("server:masq-trailer-differs", wit(nil), "%s: trailer %s; plain web server sends: %s", desc, a, b)
+	}
+	if len(refR.Trailer) > 0 {
+		k.Count("compared_with_trailer", 1)
 	}
 	if !bytes.Equal(hyR.Body, refR.Body) {
 		k.Violation("server:masq-body-differs", wit(nil), "%s: body (%d bytes) differs from the plain web server's (%d bytes)", desc, len(hyR.Body), len(refR.Body))
@@ -951,6 +1129,40 @@ func TestVerifC02Matrix(t *testing.T) {
 				}
 			}
 		}
+		// every behaviour of the custom web application at least once per kind of request, not left to the PRNG:
+		// an ordinary request, a rejected POST hysteria/auth and a near-miss, before and after an accepted auth
+		for _, post := range []bool{false, true} {
+			r := k.Rand(fmt.Sprintf("modes-%d-%v", round, post))
+			c := vfC02Case{CaseID: fmt.Sprintf("c02m-modes-%d-%v", round, post), Custom: true, LatencyMs: 1 + r.Intn(10)}
+			shapes := []vfC02Req{
+				{Method: "GET", Host: "example.com", Path: "/", HS: "none"},
+				{Method: "POST", Host: "hysteria", Path: "/auth", HS: "auth_full_bad"},
+				{Method: "HEAD", Host: "hysteria", Path: "/auth", HS: "auth_good"},
+			}
+			for ci, shape := range shapes {
+				cs := vfC02Conn{K: ci + 1}
+				if post {
+					cs.Actions = append(cs.Actions, vfC02Action{Kind: "auth_ok", N: 0, Req: vfC02AuthOK(r, fmt.Sprintf("c%dr0", ci+1))})
+				}
+				seen := map[string]bool{}
+				for _, m := range append(append([]string{}, vfC02Modes...), "big:300000") {
+					if seen[m] {
+						continue
+					}
+					seen[m] = true
+					q := shape
+					q.ID, q.Mode, q.BodyN = fmt.Sprintf("c%dr%d", ci+1, len(cs.Actions)+1), m, -1
+					if post {
+						vfC02NoSlow(&q)
+					}
+					cs.Actions = append(cs.Actions, vfC02Action{Kind: "req", N: len(cs.Actions) + 1, Req: &q})
+				}
+				c.Conns = append(c.Conns, cs)
+			}
+			if rc := k.ReplayCase(); rc == "" || rc == c.CaseID {
+				vfC02Run(t, k, c)
+			}
+		}
 	}
 }
 
@@ -1019,7 +1231,8 @@ type vfC02OverlapCase struct {
 	RoundTrip int         `json:"logical_clock_round_trips"`
 }
 
-var vfC02SmallModes = []string{"echo", "st:201", "st:204", "st:301", "st:404", "st:405", "st:503", "empty", "nowrite", "big:1200", "flush", "reqbody", "redirect", "notfound"}
+var vfC02SmallModes = []string{"echo", "st:201", "st:204", "st:301", "st:404", "st:405", "st:503", "empty", "nowrite", "big:1200", "flush", "reqbody", "redirect", "notfound",
+	"hint103", "proc102", "multi1xx", "hint-implicit", "twice", "flushfirst", "implicit", "setdel", "trailer", "ifaces"}
 
 func vfC02OverlapRun(t *testing.T, k *vfKit, caseID string, idx int) {
 	const watchdog = 30 * time.Second
@@ -1096,29 +1309,29 @@ func vfC02OverlapRun(t *testing.T, k *vfKit, caseID string, idx int) {
 		}
 		return m
 	}
-	send := func(x *vfRaw, q *vfC02Req, cred string) chan vfResp {
-		ch := make(chan vfResp, 1)
+	send := func(x *vfRaw, q *vfC02Req, cred string) chan vfC02Resp {
+		ch := make(chan vfC02Resp, 1)
 		h := q.headers()
 		if cred != "" {
 			h.Set("Hysteria-Auth", cred)
 		}
-		go func() { ch <- x.Do(q.Method, q.Host, q.Path, h, q.body()) }()
+		go func() { ch <- vfC02Do(x, q.Method, q.Host, q.Path, h, q.body()) }()
 		return ch
 	}
-	try := func(ch chan vfResp) (vfResp, bool) {
+	try := func(ch chan vfC02Resp) (vfC02Resp, bool) {
 		select {
 		case x := <-ch:
 			return x, true
 		default:
-			return vfResp{}, false
+			return vfC02Resp{}, false
 		}
 	}
-	wait := func(ch chan vfResp) (vfResp, bool) {
+	wait := func(ch chan vfC02Resp) (vfC02Resp, bool) {
 		select {
 		case x := <-ch:
 			return x, true
 		case <-time.After(watchdog):
-			return vfResp{}, false
+			return vfC02Resp{}, false
 		}
 	}
 
@@ -1148,7 +1361,7 @@ func vfC02OverlapRun(t *testing.T, k *vfKit, caseID string, idx int) {
 	}
 
 	// 2. overlapping requests on the same connection (and on the twin)
-	hyOv, refOv := make([]chan vfResp, len(c.Overlap)), make([]chan vfResp, len(c.Overlap))
+	hyOv, refOv := make([]chan vfC02Resp, len(c.Overlap)), make([]chan vfC02Resp, len(c.Overlap))
 	for j, q := range c.Overlap {
 		hyOv[j], refOv[j] = send(hyA, q, ""), send(refA, q, "")
 	}
@@ -1192,7 +1405,7 @@ func vfC02OverlapRun(t *testing.T, k *vfKit, caseID string, idx int) {
 
 	// 4. verdict on the logical clock, while the auth request is still pending
 	type ovState struct {
-		hy, ref       vfResp
+		hy, ref       vfC02Resp
 		hyOK, refOK   bool
 		answeredEarly bool
 	}
@@ -1278,7 +1491,7 @@ func vfC02OverlapRun(t *testing.T, k *vfKit, caseID string, idx int) {
 		return // cannot happen with these credentials; then nothing here is an unauthenticated request
 	}
 
-	compare := func(q *vfC02Req, hy, rf vfResp, hyOK, rfOK bool, what string) {
+	compare := func(q *vfC02Req, hy, rf vfC02Resp, hyOK, rfOK bool, what string) {
 		k.Eval()
 		if !hyOK || !rfOK {
 			k.Inconclusive(fmt.Sprintf("%s: %s not answered within the %v real-time watchdog after release (hysteria answered: %v, reference answered: %v)", caseID, what, watchdog, hyOK, rfOK))
@@ -1401,9 +1614,9 @@ func vfC02RepeatRun(t *testing.T, k *vfKit, caseID string, idx int) {
 		}
 		return m
 	}
-	send := func(x *vfRaw, q *vfC02Req) chan vfResp {
-		ch := make(chan vfResp, 1)
-		go func() { ch <- x.Do(q.Method, q.Host, q.Path, q.headers(), q.body()) }()
+	send := func(x *vfRaw, q *vfC02Req) chan vfC02Resp {
+		ch := make(chan vfC02Resp, 1)
+		go func() { ch <- vfC02Do(x, q.Method, q.Host, q.Path, q.headers(), q.body()) }()
 		return ch
 	}
 	// logical clock: 2K sequential round trips on each untouched connection; "done" = all completed
@@ -1439,7 +1652,7 @@ func vfC02RepeatRun(t *testing.T, k *vfKit, caseID string, idx int) {
 			expectCreds[q.headers().Get("Hysteria-Auth")]++
 		}
 		hyCh, refCh := send(hyA, q), send(refA, q)
-		var refR vfResp
+		var refR vfC02Resp
 		select {
 		case refR = <-refCh:
 		case <-time.After(watchdog):
@@ -1452,7 +1665,7 @@ func vfC02RepeatRun(t *testing.T, k *vfKit, caseID string, idx int) {
 		}
 		stop := make(chan struct{})
 		clk := clock(stop)
-		var hyR vfResp
+		var hyR vfC02Resp
 		answered := false
 		select {
 		case hyR = <-hyCh:
@@ -1519,4 +1732,317 @@ func vfC02RepeatRun(t *testing.T, k *vfKit, caseID string, idx int) {
 			k.Violation("server:authenticator-consulted-for-near-miss", rep(map[string]any{"event": e}), "connection %s was accepted although no request carried acceptable credentials in an auth request", e.Tag)
 		}
 	}
+}
+
+// ---------------------------------------------------------------- proxy stream / datagram around a HELD authentication
+
+// TestVerifC02Held (bubble): the second half of the statement under a slow authentication
+// backend. The authenticator fake holds the decision on a POST hysteria/auth ("hold:" credential)
+// for 30 ms .. 7 s of virtual time; WHILE it is held the client opens 0x401+TCPRequest streams and
+// sends a UDPMessage datagram on the same connection; then the decision is released:
+//   held_bad     credentials rejected  -> the streams/datagram were sent without authentication and
+//                stay so: until 6.5 s after the release no TCPResponse on the streams, no datagram,
+//                no outbound dial / request event for their (unique) addresses, and the rejected
+//                auth is answered exactly like the reference answers its twin
+//   stream_first the same, but streams and datagram precede the auth request
+//   held_good    credentials accepted  -> what happens to the early stream is C01's subject: sent
+//                for workload variety only, not judged here
+// "Without authentication" is read from the authenticator's log (no auth_ok for the connection).
+func TestVerifC02Held(t *testing.T) {
+	k := vfNewKit(t, "C02", "c02-held")
+	defer k.Finish()
+	defer vfC02FreezeGuard(k)()
+	n := k.N(24, 600)
+	for i := 0; i < n; i++ {
+		caseID := fmt.Sprintf("c02h-%d", i)
+		if rc := k.ReplayCase(); rc != "" && rc != caseID {
+			continue
+		}
+		r := k.Rand(caseID)
+		c := vfC02HeldCase{CaseID: caseID, Custom: r.Intn(2) == 0, LatencyMs: 1 + r.Intn(20)}
+		for ci, nconn := 1, 1+r.Intn(3); ci <= nconn; ci++ {
+			hc := vfC02HeldConn{K: ci, HoldMs: []int{30, 400, 2000, 4500, 7000}[r.Intn(5)], Streams: 1 + r.Intn(2), Dgram: r.Intn(3) != 0,
+				Mode: vfC02SmallModes[r.Intn(len(vfC02SmallModes))]}
+			hc.Variant = []string{"held_bad", "held_bad", "stream_first", "held_good"}[(i+ci)%4]
+			c.Conns = append(c.Conns, hc)
+		}
+		if i < 3 {
+			k.Sample(c)
+		}
+		vfC02HeldRun(t, k, c)
+	}
+}
+
+type vfC02HeldConn struct {
+	K       int    `json:"k"`
+	Variant string `json:"variant"`
+	HoldMs  int    `json:"hold_ms"`
+	Streams int    `json:"streams"`
+	Dgram   bool   `json:"datagram"`
+	Mode    string `json:"mode"`
+}
+
+type vfC02HeldCase struct {
+	CaseID    string          `json:"case_id"`
+	Custom    bool            `json:"custom_handler"`
+	LatencyMs int             `json:"latency_ms"`
+	Conns     []vfC02HeldConn `json:"conns"`
+}
+
+func vfC02HeldRun(t *testing.T, k *vfKit, c vfC02HeldCase) {
+	vfC02CurrentCase.Store(c.CaseID)
+	defer vfC02Progress.Add(1)
+	synctest.Test(t, func(t *testing.T) {
+		var masq http.Handler
+		var refH http.Handler = http.HandlerFunc(http.NotFound)
+		if c.Custom {
+			app := &vfC02Handler{hits: map[string]int{}}
+			masq, refH = app, app
+		}
+		w, err := vfNewWorld(vfServerOpts{
+			Latency: time.Duration(c.LatencyMs) * time.Millisecond,
+			Config:  func(sc *server.Config) { sc.MasqHandler = masq },
+		})
+		if err != nil {
+			t.Fatalf("harness: server: %v", err)
+		}
+		ref, err := vfC02StartRef(w, refH)
+		if err != nil {
+			t.Fatalf("harness: reference server: %v", err)
+		}
+		w.onClose(ref.Close)
+		w.Out.OnTCP = func(addr string) (net.Conn, error) {
+			pt := vfNewPipeTarget()
+			go func() { _, _ = pt.Harness.Write([]byte("GREETING-FROM-" + addr)) }()
+			w.onClose(func() { _ = pt.Harness.Close() })
+			return pt.serverSide, nil
+		}
+		w.Out.OnUDP = func(addr string) (server.UDPConn, error) {
+			s := vfNewSinkUDP(w.Log, addr)
+			s.Reply([]byte("UDP-GREETING-"+addr), addr)
+			return s, nil
+		}
+		rep := func(extra map[string]any) map[string]any {
+			m := map[string]any{"case_id": c.CaseID, "case": c}
+			for a, b := range extra {
+				m[a] = b
+			}
+			return m
+		}
+
+		type streamObs struct {
+			addr             string
+			duringHold       bool
+			hyB, refB        []byte
+			hyOpened, hyDone bool
+		}
+		type connObs struct {
+			hc       vfC02HeldConn
+			hy, ref  *vfRaw
+			cred     string
+			held     bool
+			streams  []*streamObs
+			dgrams   int
+			recv     atomic.Int64
+			hyAuth   vfC02Resp
+			refAuth  vfC02Resp
+			authSent bool
+		}
+		obs := make([]*connObs, len(c.Conns))
+		done := make(chan struct{}, len(c.Conns))
+		for i, hc := range c.Conns {
+			o := &connObs{hc: hc}
+			obs[i] = o
+			if o.hy, err = vfC02Dial(w, w.ServerAddr); err != nil {
+				t.Fatalf("harness: dial hysteria: %v", err)
+			}
+			if o.ref, err = vfC02Dial(w, ref.Addr); err != nil {
+				t.Fatalf("harness: dial reference: %v", err)
+			}
+			dctx, dcancel := context.WithCancel(context.Background())
+			w.onClose(dcancel)
+			go func() {
+				for {
+					if _, err := o.hy.Conn.ReceiveDatagram(dctx); err != nil {
+						return
+					}
+					o.recv.Add(1)
+				}
+			}()
+			go func() {
+				defer func() { done <- struct{}{} }()
+				readFor := time.Duration(hc.HoldMs+6500) * time.Millisecond
+				var readers []chan struct{}
+				probe := func(duringHold bool) {
+					for n := 0; n < hc.Streams; n++ {
+						k.Eval()
+						so := &streamObs{addr: fmt.Sprintf("h%ds%d.verif:%d", hc.K, len(o.streams), 2000+len(o.streams)), duringHold: duringHold}
+						o.streams = append(o.streams, so)
+						fin := make(chan struct{}, 2)
+						readers = append(readers, fin)
+						for _, side := range []*vfRaw{o.hy, o.ref} {
+							st, err := side.ProxyStream(so.addr)
+							if err != nil {
+								fin <- struct{}{}
+								continue
+							}
+							_, _ = st.Write([]byte("payload-for-" + so.addr))
+							if side == o.hy {
+								so.hyOpened = true
+							}
+							go func() {
+								b, _ := vfReadSome(st, readFor)
+								st.CancelRead(0)
+								st.CancelWrite(0)
+								if side == o.hy {
+									so.hyB, so.hyDone = b, true
+								} else {
+									so.refB = b
+								}
+								fin <- struct{}{}
+							}()
+						}
+					}
+					if hc.Dgram {
+						k.Eval()
+						addr := fmt.Sprintf("h%dd%d.verif:53", hc.K, o.dgrams)
+						msg := vfUDPMessageBytes(uint32(7+o.dgrams), 0, 0, 1, addr, []byte("dgram-for-"+addr))
+						if o.hy.Conn.SendDatagram(msg) == nil {
+							o.dgrams++
+						}
+						_ = o.ref.Conn.SendDatagram(msg)
+					}
+				}
+				if hc.Variant == "stream_first" {
+					probe(false)
+					time.Sleep(time.Duration(3*c.LatencyMs+2) * time.Millisecond)
+				}
+				o.cred = fmt.Sprintf("hold:bad-h%d-%s", hc.K, c.CaseID)
+				if hc.Variant == "held_good" {
+					o.cred = fmt.Sprintf("hold:ok:u-h%d", hc.K)
+				}
+				q := &vfC02Req{ID: fmt.Sprintf("h%dauth", hc.K), Method: "POST", Host: "hysteria", Path: "/auth", HS: "auth_full_bad", Mode: hc.Mode, BodyN: -1}
+				hdr := q.headers()
+				hdr.Set("Hysteria-Auth", o.cred)
+				// CC-RX 0: an accepted request must not install Brutal, whose slot arithmetic panics on the
+				// negative monotime of a bubble (clock behind the process start; impossible in production)
+				hdr.Set("Hysteria-CC-RX", "0")
+				k.Eval()
+				hyC, refC := make(chan vfC02Resp, 1), make(chan vfC02Resp, 1)
+				go func() { hyC <- vfC02Do(o.hy, q.Method, q.Host, q.Path, hdr, nil) }()
+				go func() { refC <- vfC02Do(o.ref, q.Method, q.Host, q.Path, hdr.Clone(), nil) }()
+				o.authSent = true
+				for spin := 0; spin < 4000 && !o.held; spin++ { // virtual time: wait until the authenticator holds the request
+					for _, e := range w.Log.Snapshot() {
+						if e.Kind == "auth_held" && e.Tag == o.hy.Tag {
+							o.held = true
+						}
+					}
+					if !o.held {
+						time.Sleep(time.Millisecond)
+					}
+				}
+				if o.held {
+					probe(true)
+					time.Sleep(time.Duration(hc.HoldMs) * time.Millisecond)
+				}
+				w.Auth.Release(o.hy.Tag)
+				o.hyAuth, o.refAuth = <-hyC, <-refC
+				for _, fin := range readers {
+					<-fin
+					<-fin
+				}
+				vfC02Progress.Add(1)
+			}()
+		}
+		for range c.Conns {
+			<-done
+		}
+		time.Sleep(1 * time.Second) // virtual settle
+		synctest.Wait()
+		evs := w.Log.Snapshot()
+		w.Close()
+
+		for _, o := range obs {
+			hc := o.hc
+			calls, oks := 0, 0
+			for _, e := range evs {
+				if e.Tag != o.hy.Tag {
+					continue
+				}
+				switch e.Kind {
+				case "auth_call":
+					calls++
+					if a, _ := e.F["auth"].(string); a != o.cred {
+						k.Violation("server:authenticator-consulted-for-near-miss", rep(map[string]any{"conn": hc.K, "event": e}), "connection h%d: authenticator called with %q, the only auth request carried %q", hc.K, a, o.cred)
+					}
+				case "auth_ok":
+					oks++
+				}
+			}
+			if !o.held {
+				k.Inconclusive(fmt.Sprintf("%s h%d: the auth request never reached the authenticator's hold (calls=%d)", c.CaseID, hc.K, calls))
+				continue
+			}
+			k.Count("ev_auth_held", 1)
+			if oks > 0 {
+				// accepted: the connection is a proxy connection now; its early streams are C01's subject
+				k.Count("held_good_not_judged", 1)
+				continue
+			}
+			// ---- the authenticator never accepted this connection
+			k.Count("ev_held_rejected_conns", 1)
+			k.Count("ev_compared", 1)
+			k.Count("ev_compared_auth_rejected", 1)
+			desc := fmt.Sprintf("POST https://hysteria/auth [rejected after being held %d ms in the authenticator, handler %v, mode %s, conn h%d %s]", hc.HoldMs, c.Custom, hc.Mode, hc.K, hc.Variant)
+			wit := func(extra map[string]any) map[string]any {
+				m := rep(map[string]any{"conn": hc.K, "hysteria": vfC02RespSummary(o.hyAuth), "reference": vfC02RespSummary(o.refAuth)})
+				for a, b := range extra {
+					m[a] = b
+				}
+				return m
+			}
+			if o.refAuth.Err != nil {
+				k.Inconclusive(fmt.Sprintf("%s h%d: reference gave no response to the auth request: %v", c.CaseID, hc.K, o.refAuth.Err))
+			} else {
+				k.Nontrivial(fmt.Sprintf("held|%s|%v|%d|%d|%v|%s", hc.Variant, c.Custom, hc.HoldMs, hc.Streams, hc.Dgram, hc.Mode))
+				vfC02CompareResp(k, desc, wit, &vfC02Req{Method: "POST"}, o.hyAuth, o.refAuth, true)
+			}
+			for _, so := range o.streams {
+				if !so.hyOpened || !so.hyDone {
+					k.Count("unauth_stream_not_opened", 1)
+					continue
+				}
+				k.Count("ev_unauth_stream", 1)
+				if so.duringHold {
+					k.Count("ev_unauth_stream_during_held_auth", 1)
+				}
+				if len(so.hyB) == 0 {
+					k.Count("unauth_stream_zero_bytes", 1)
+				}
+				if status, msg, _, ok := vfParseTCPResponse(so.hyB); ok && !bytes.Equal(so.hyB, so.refB) {
+					k.Violation("server:tcpresponse-to-unauthenticated-stream", rep(map[string]any{"conn": hc.K, "addr": so.addr, "during_held_auth": so.duringHold, "bytes": vfHex(so.hyB), "reference_bytes": vfHex(so.refB)}),
+						"connection h%d (%s; the authenticator rejected its only auth request after holding it %d ms) sent 0x401+TCPRequest(%s) %s and read a TCPResponse: status %#x msg %q (plain web server: %d bytes)",
+						hc.K, hc.Variant, hc.HoldMs, so.addr, map[bool]string{true: "while the auth request was being evaluated", false: "before the auth request"}[so.duringHold], status, msg, len(so.refB))
+				}
+			}
+			prefixS, prefixD := fmt.Sprintf("h%ds", hc.K), fmt.Sprintf("h%dd", hc.K)
+			for idx, e := range evs {
+				switch e.Kind {
+				case "ob_tcp", "ob_udp", "ob_checkudp", "udp_write", "el_tcpreq", "el_udpreq":
+					if a, _ := e.F["addr"].(string); strings.HasPrefix(a, prefixS) || strings.HasPrefix(a, prefixD) {
+						k.Violation("server:outbound-for-unauthenticated-connection", rep(map[string]any{"conn": hc.K, "event": e, "tail": evs[max(0, idx-8) : idx+1]}),
+							"%s(%s): connection h%d requested this address without authentication (%s, auth rejected after %d ms hold) and the server acted on it", e.Kind, a, hc.K, hc.Variant, hc.HoldMs)
+					}
+				}
+			}
+			if o.dgrams > 0 {
+				k.Count("ev_unauth_dgram_sent", int64(o.dgrams))
+				if n := o.recv.Load(); n != 0 {
+					k.Violation("server:datagram-to-unauthenticated", rep(map[string]any{"conn": hc.K, "received": n}),
+						"connection h%d was never accepted by the authenticator, sent %d UDPMessage datagram(s) around a held auth request and received %d datagram(s)", hc.K, o.dgrams, n)
+				}
+			}
+		}
+	})
 }
